@@ -16,6 +16,16 @@ var defectKinds = []string{
 	"duplicate-types", "duplicate-enums", "duplicate-tags", "duplicate-servers", "duplicate-macros",
 	"rule-violating-types", "allof-missing", "mutual-bad-types", "duplicate-operation-ids", "duplicate-paths",
 	"similar-paths", "path-bad-user-types", "undefined-types-many-types", "undefined-macros", "bad-enum-bodies",
+	"request-without-body", "response-without-body", "headers-not-object",
+}
+
+// defectGroups: kinds that are detected in the same phase of the builder.
+var defectGroups = [][]string{
+	{"request-without-body", "response-without-body", "headers-not-object"},                      // validateCatalog (last phase)
+	{"self-pasting-macros", "undefined-macros", "duplicate-macros"},                               // macro collection / paste
+	{"duplicate-types", "undefined-types-many-types", "rule-violating-types", "mutual-bad-types", "allof-missing", "undefined-enums"}, // user types
+	{"duplicate-paths", "similar-paths", "path-extra-props", "path-bad-user-types"},                // paths
+	{"undefined-tags", "duplicate-tags", "duplicate-servers", "duplicate-operation-ids", "duplicate-enums", "bad-enum-bodies"},
 }
 
 func defectBlock(kind string, n int, r *Rand) string {
@@ -89,6 +99,12 @@ func defectBlock(kind string, n int, r *Rand) string {
 		for i := 0; i < k; i++ {
 			fmt.Fprintf(&sb, "ENUM @be%d_%d\n  [\"a\", \"a\"]\n", n, i)
 		}
+	case "request-without-body":
+		fmt.Fprintf(&sb, "POST /zrq%d\n  Request\n    Headers\n      {\"X-A\": \"y\"}\n  200 any\n", n)
+	case "response-without-body":
+		fmt.Fprintf(&sb, "GET /zrs%d\n  200\n    Headers\n      {\"X-B\": \"y\"}\n", n)
+	case "headers-not-object":
+		fmt.Fprintf(&sb, "GET /zho%d\n  200\n    Headers\n      [1, 2]\n    Body\n      {\"a\": 1}\n", n)
 	default:
 		panic("unknown defect kind " + kind)
 	}
@@ -103,12 +119,19 @@ func genMultiDefect(r *Rand) *Project {
 	p.Valid = false
 	n := r.Range(2, 4)
 	var kinds []string
-	same := r.Chance(1, 2) // several defects of one kind compete inside one phase of the builder
+	// Defects only compete for "which error is reported" when they are found in the same phase
+	// of the builder. 1/3: several defects of ONE kind; 1/3: several kinds of ONE phase group;
+	// 1/3: any kinds.
+	mode := r.Intn(3)
 	k0 := defectKinds[r.Intn(len(defectKinds))]
+	grp := defectGroups[r.Intn(len(defectGroups))]
 	for i := 0; i < n; i++ {
-		if same {
+		switch mode {
+		case 0:
 			kinds = append(kinds, k0)
-		} else {
+		case 1:
+			kinds = append(kinds, grp[(i+int(r.s%7))%len(grp)])
+		default:
 			kinds = append(kinds, defectKinds[r.Intn(len(defectKinds))])
 		}
 	}
